@@ -138,6 +138,19 @@ func refNumber(s []byte, i int) (n int, next int, ok bool) {
 	return n, i + 2, true
 }
 
+// refLineEnd: the line starting at i ends at the first LF, which must be preceded by CR
+func refLineEnd(s []byte, i int) (next int, ok bool) {
+	for j := i; j < len(s); j++ {
+		if s[j] == '\n' {
+			if j > i && s[j-1] == '\r' {
+				return j + 1, true
+			}
+			return 0, false
+		}
+	}
+	return 0, false
+}
+
 func refCommands(s []byte) (count int) {
 	i := 0
 	for i < len(s) {
@@ -158,7 +171,15 @@ func refCommands(s []byte) (count int) {
 			continue
 		}
 		if s[i] != '*' {
-			return count
+			// any other complete top-level line (a simple string / error / integer, or text that is no RESP
+			// value at all - what Redis calls an inline command) is not a command for this server: nothing is
+			// executed from it, and the property does not forbid serving the well-formed commands behind it
+			j, ok := refLineEnd(s, i)
+			if !ok {
+				return count
+			}
+			i = j
+			continue
 		}
 		n, j, ok := refNumber(s, i+1)
 		if !ok || n < -1 {
@@ -199,14 +220,22 @@ func c02Malformed(maxLen int) {
 	delivered := 0
 	for i := 0; i < maxLen+2; i++ {
 		r, ok := <-ch
-		if !ok || r.Err != nil {
+		if !ok {
+			break
+		}
+		if r.Err != nil {
 			break
 		}
 		if _, isArr := r.Data.(*ArrayData); isArr {
 			delivered++
 		}
 	}
+	// known leniency (known_findings.json, class v_c02.nonbulk_element): array elements that are not bulks
+	nb := vfBool("c02.nonbulk-element")
+	vfAssume(nb == c02NonBulkElement(stream))
 	vfAssert(delivered <= refCommands(stream), "malformed-nothing-executed-beyond-wellformed-prefix")
+	// ("the offending connection gets an error or is closed" for a complete top-level value that is no
+	// command is the handler's obligation: harness/server/c02.go, VF_C02_handle_non_command_request)
 }
 
 func VF_C02_malformed_quick()    { c02Malformed(6) }
